@@ -103,7 +103,20 @@ func runC10(r *Run) {
 	if fn := w.Fn("tmi.Kernel.loadInitialView"); fn != nil {
 		a := w.AU(fn)
 		lrs := a.CallsTo("tmstore.RoundStore.LoadRoundState")
-		ok := len(lrs) == 1 && a.sh.Of(CallArg(lrs[0], 2)).String() == "p2" && a.sh.Of(CallArg(lrs[0], 3)).String() == "p3"
+		// the height and round the round state is loaded for are the ones given to the view being built
+		ok := len(lrs) == 1
+		if ok {
+			lh, lr := a.sh.Of(CallArg(lrs[0], 2)).String(), a.sh.Of(CallArg(lrs[0], 3)).String()
+			okView := false
+			a.Instrs(func(in ssa.Instruction) {
+				if st, isSt := in.(*ssa.Store); isSt {
+					if b, m := Match("lit:tmconsensus.RoundView{Height:$h,Round:$r,$...}", a.sh.Of(st.Val)); m && b["$h"].String() == lh && b["$r"].String() == lr {
+						okView = true
+					}
+				}
+			})
+			ok = okView && derivesFromParam(a.sh.Of(CallArg(lrs[0], 2))) && derivesFromParam(a.sh.Of(CallArg(lrs[0], 3)))
+		}
 		r.Check(ok, "C10.3", "tmi.Kernel.loadInitialView(round-state)", w.Pos(fn.Pos()), "a start-up view is loaded from the round store for its own height and round")
 		// loaded votes are re-verified into full proofs of their own kind
 		pv := a.CallsTo("tmconsensus.SparseSignatureCollection.ToFullPrevoteProofMap")
@@ -223,7 +236,7 @@ func runC10(r *Run) {
 		a := w.AU(fn)
 		// future votes are written only when signatures increased
 		var inc []Edge
-		for _, b := range fn.Blocks {
+		for _, b := range a.blocks() {
 			if len(b.Instrs) == 0 {
 				continue
 			}
@@ -613,7 +626,7 @@ func runC11(r *Run) {
 // selCaseGuard: instruction is reachable only through case idx of the select.
 func selCaseGuard(a *FnA, target ssa.Instruction, sel *ssa.Select, idx int) bool {
 	var edges []Edge
-	for _, b := range a.fn.Blocks {
+	for _, b := range a.blocks() {
 		if len(b.Instrs) == 0 {
 			continue
 		}
@@ -661,7 +674,7 @@ func selDefaultGuard(a *FnA, target ssa.Instruction, sel *ssa.Select) bool {
 		return ok && ex.Index == 0 && ex.Tuple == ssa.Value(sel)
 	}
 	var edges []Edge
-	for _, b := range a.fn.Blocks {
+	for _, b := range a.blocks() {
 		if isTest(b) && !isTest(b.Succs[1]) {
 			edges = append(edges, Edge{b, 1})
 		}
